@@ -10,7 +10,7 @@ use crate::hist_enc::EProfile;
 use serde_json::json;
 use std::time::Instant;
 
-pub const RULE: &str = "case = decoder / encoder history whose capacity sequence contains 'query' steps: the matching max_* method is asked on the live converter for the length of the remaining chunk and the call is issued with a destination of exactly that many units (never below the documented minimum), interleaved with small-capacity steps so that queries happen in every pending state (withheld BOM bytes, pending lead / ASCII / BMP unit, half-read escape, non-ASCII encoder state); oracle = such a call never returns OutputFull (with-replacement encoder queries: only texts without unmappable characters, decided by the reference model). Overflow clause: for lengths near usize::MAX, MAX/2, MAX/3, MAX/4 in every such state the answer is None or is monotone in the length and not below the extrapolation of the formula's growth measured at small lengths (a wrapped product breaks both). Non-trivial = the converter is not in its initial state when queried; distinct = distinct history / (state, length) pair.";
+pub const RULE: &str = "case = decoder / encoder history whose capacity sequence contains 'query' steps: the matching max_* method is asked on the live converter for the length of the remaining chunk and the call is issued with a destination of exactly that many units, interleaved with small-capacity steps so that queries happen in every pending state (withheld BOM bytes, pending lead / ASCII / BMP unit, half-read escape, non-ASCII encoder state); oracle = such a call never returns OutputFull (with-replacement encoder queries: only texts without unmappable characters, decided by the reference model). Overflow clause: for lengths near usize::MAX, MAX/2, MAX/3, MAX/4 in every such state the answer is None or is monotone in the length and not below the extrapolation of the formula's growth measured at small lengths (a wrapped product breaks both). Non-trivial = the converter is not in its initial state when queried; distinct = distinct history / (state, length) pair.";
 
 fn overflow_lengths() -> Vec<usize> {
     let mut v = Vec::new();
@@ -181,7 +181,7 @@ pub fn run(ctx: &Ctx) -> i32 {
         };
         st.merge(ench::run_enc_check(ctx, &ec));
     }
-    fw::finish(ctx, st, RULE, &["the destination offered is max(query answer, documented minimum), which is 'at least as large as the value returned' and respects the documented minimum", "for the if_no_unmappables queries the precondition (no unmappable character) is decided by the reference encoder model"], t0.elapsed().as_secs_f64()).exit
+    fw::finish(ctx, st, RULE, &["the destination offered is exactly the query answer (also when that is below the general documented minimum, as an end-of-stream flush sized by max_*(0) is)", "for the if_no_unmappables queries the precondition (no unmappable character) is decided by the reference encoder model"], t0.elapsed().as_secs_f64()).exit
 }
 
 pub fn replay(case: &serde_json::Value) -> Option<Vec<Violation>> {
